@@ -153,9 +153,15 @@ def run_case(ctx, case):
                 return f'opening the parts together raised {type(e).__name__}: {str(e)[:120]}', False
             if differing:
                 return (f'data sets with differing dump periods {periods} were concatenated instead of refused'), False
-            if case.get('multi'):
-                return drive_multi(ctx, case, parts, d)
-            return drive(ctx, case, parts, d)
+            try:
+                if case.get('multi'):
+                    return drive_multi(ctx, case, parts, d)
+                return drive(ctx, case, parts, d)
+            except Exception as e:   # noqa: BLE001  - any access to the combined data set that raises is a finding
+                import traceback
+                where = traceback.extract_tb(e.__traceback__)[-1]
+                return (f'accessing the combined data set raised {type(e).__name__}: {str(e)[:120]} '
+                        f'(at {os.path.basename(where.filename)}:{where.lineno})'), False
     finally:
         shutil.rmtree(tmp, ignore_errors=True)
 
